@@ -47,6 +47,8 @@ pub use overrides::*;
 pub use priority::*;
 pub use retry_policy::*;
 pub(super) use scripts::*;
+#[cfg(nextest_verif)]
+pub use scripts::verif_scripts;
 pub use slow_timeout::*;
 pub use test_group::*;
 pub use test_threads::*;
